@@ -93,9 +93,33 @@ func c09Collision(r *Rng, forced int) c09WS {
 		case 2:
 			return c09CrossFileMembers(r)
 		}
-		forced = r.Intn(9)
+		forced = r.Intn(10)
 	}
-	switch forced % 9 {
+	switch forced % 10 {
+	case 9: // a workspace of many more files than the machine has processors, of very different sizes, whose symbol names share fragments
+		files := map[string]string{}
+		nf := r.Range(30, 60)
+		frags := []string{"util", "Handler", "cfg", "f", "wide", "Dup", "item"}
+		for i := 0; i < nf; i++ {
+			var sb strings.Builder
+			ns := []int{1, 2, 3, 5, 8, 40, 150}[r.Intn(7)]
+			for k := 0; k < ns; k++ {
+				name := fmt.Sprintf("%s%s_%d_%d", r.Pick([]string{"G", "g", ""}), r.Pick(frags), i, k)
+				if r.Chance(1, 3) {
+					name += strings.Repeat(r.Pick(frags), r.Range(1, 3))
+				}
+				switch r.Intn(3) {
+				case 0:
+					fmt.Fprintf(&sb, "function %s(a, b)\n  return a\nend\n", name)
+				case 1:
+					fmt.Fprintf(&sb, "%s = { %s = %d }\n", name, r.Pick(frags), k)
+				default:
+					fmt.Fprintf(&sb, "local %s = %d\nprint(%s)\n", name, k, name)
+				}
+			}
+			files[fmt.Sprintf("%s/wide%d.lua", r.Pick([]string{"a", "b", "c"}), i)] = sb.String()
+		}
+		return c09WS{"wide-workspace", files}
 	case 8: // nested table constructors on one line whose inner tables share key names
 		var sb strings.Builder
 		inner := []string{"x", "y", "w"}
@@ -248,7 +272,7 @@ func c09Observe(c *Ctx, w c09WS, run int, r *Rng, tag string) ([]string, error) 
 			if t.K != TName && !(t.K == TString && !t.Long) {
 				continue
 			}
-			if n >= 12 {
+			if n >= 12 || (w.Kind == "wide-workspace" && n >= 2) {
 				break
 			}
 			n++
@@ -303,8 +327,16 @@ func c09Observe(c *Ctx, w c09WS, run int, r *Rng, tag string) ([]string, error) 
 		sort.Strings(ss)
 		obs = append(obs, "documentSymbol|"+rel+"|"+strings.Join(ss, ","))
 	}
-	for _, q := range []string{"G", "Dup", "util", "f"} {
-		ws2, _, err := srv.WorkspaceSymbol(q)
+	queries := []string{"G", "Dup", "util", "f"}
+	if w.Kind == "wide-workspace" {
+		// the same queries several times over: each is answered by a pool of workers over all files
+		queries = []string{"G", "Dup", "util", "f", "Handler", "gcfg", "wide_3", "itemitem", "G", "util", "Handler", "gcfg", "wide_3", "utl", "Hdlr", "util", "G", "Handler", "itemitem", "cfg_1"}
+	}
+	for qi, q := range queries {
+		if qi >= 4 {
+			q = fmt.Sprintf("%s#%d", q, qi)
+		}
+		ws2, _, err := srv.WorkspaceSymbol(strings.SplitN(q, "#", 2)[0])
 		if err != nil {
 			return nil, err
 		}
@@ -383,7 +415,7 @@ func runC09(c *Ctx) {
 	}
 	for i := 0; i < nColl; i++ {
 		forced := -1
-		if i < 27 {
+		if i < 30 {
 			forced = i // three of each hand-written kind first
 		}
 		wss = append(wss, c09Collision(root.Fork(uint64(100000+i)), forced))
@@ -394,8 +426,16 @@ func runC09(c *Ctx) {
 		c.Eval(1)
 		var all [][]string
 		r := root.Fork(uint64(777 + wi))
+		deaths := 0
 		for run := 0; run < R; run++ {
 			obs, err := c09Observe(c, w, run, r.Fork(uint64(run)), fmt.Sprintf("c09w%dr%d", wi, run))
+			if err == ErrDead {
+				// a process that dies on this workspace: C01's business when it dies in every run, scheduling dependence when it
+				// dies in some runs and answers in others
+				deaths++
+				c.Count("server_runs", 1)
+				continue
+			}
 			if err != nil {
 				c.Inconclusive("server failed during a determinism run (C01's business): " + err.Error())
 				return
@@ -403,6 +443,16 @@ func runC09(c *Ctx) {
 			c.Count("server_runs", 1)
 			c.Count("observations_compared", int64(len(obs)))
 			all = append(all, obs)
+		}
+		if deaths == R {
+			c.Inconclusive("the server process died in every run on one workspace (C01's business)")
+			return
+		}
+		if deaths > 0 {
+			c.Report(fmt.Sprintf("nondeterministic|%s|process-death-in-some-runs", w.Kind),
+				fmt.Sprintf("of %d runs of the same %s workspace and the same requests, %d ended with the death of the server process and %d were answered", R, w.Kind, deaths, R-deaths),
+				map[string]interface{}{"workspace": w, "deaths": deaths, "runs": R})
+			return
 		}
 		distinct := map[string]int{}
 		for _, o := range all {
